@@ -26,6 +26,18 @@ add("C09", "jaxpr2smt",
     "floats as reals (float32 rounding outside), ints unbounded; probe nodes with arithmetic step functions; jaxpr taken as the meaning of jitted code (XLA not examined); instance family enumerated, not quantified",
     "DESIGN.md §6 C09")
 
+add("C06", "jaxpr2smt",
+    "bounded symbolic execution of the jaxpr of Graph.run/reset/step with symbolic run masks; step-function occurrences recorded with their enclosing cond predicates; z3 decides guard <=> run mask and seq/ts/eps handed to the step; replay with a host-side io_callback counter on the real code",
+    "Compiled runtime only (so far): for every state and every run-mask/seq assignment of the enumerated tiny instances (3 supergraph modes) each non-supervisor slot executes the step function iff its mask is set, once, with the slot's seq/ts; the supervisor's step runs once in run(), iff step!=0 in step(), never in reset() or when overridden. The threaded-runtime clause is added by engine A (see evidence for whether it ran).",
+    "0<=step<=max_step; effects counted per jaxpr occurrence under lax.cond semantics (un-vmapped); user step = arbitrary deterministic function; instances enumerated",
+    "DESIGN.md §6 C06")
+
+add("C13", "jaxpr2smt",
+    "bounded symbolic execution of the jaxpr of Graph.run with and without aux['record'] (settings enumerated) on the same symbolic state, user steps as uninterpreted functions; z3 decides non-interference, row faithfulness and frame condition; replay on the real run with a logging probe node",
+    "Compiled runtime (so far): enabling any combination of record settings changes no non-record leaf; the record row of every executed step holds exactly the seq/times/rng/state/inputs it was handed and the output it returned; all other rows are unchanged (so never-executed rows keep -1). Bounded: one run() from an arbitrary state, enumerated instances x settings.",
+    "0<=step<=max_steps-1; executed steps of one node carry distinct in-range seqs (schedule adequacy); user step deterministic",
+    "DESIGN.md §6 C13")
+
 def main():
     checks = []
     for pid in sorted(CHECKS):
